@@ -1,19 +1,31 @@
 (* C31 — Bayesian-network export preserves the distribution (problog/tasks/bayesnet.py, problog/pgm/cpd.py).
-   Only statements, closed by `exact`.  Model: ModelBN.v.
+   Only statements, closed by `exact`.  Model: ModelBN.v (network, world semantics), ModelBNwf.v (well-formedness).
 
-   FULL STATEMENT (not proved in this generality, hence `_partial` below):
+   FULL STATEMENT (now proved: C31_marginals):
      for every acyclic ground program, the joint distribution defined as the PRODUCT OF ALL FACTORS of the
-     exported network, marginalised by SUMMATION over all assignments (ModelBN.bn_marginal), gives every
-     atom the probability of ProbLog's possible-world semantics.
-   What is proved: (1) the per-clause theorem (choice-node CPT + OrCPTs realise the AD's world semantics given
-   the parents), (2) its lifting along ANY clause order: the generative (ancestral, clause-by-clause) reading of
-   the network and the clause-by-clause reading of the world semantics assign the same probability to every
-   event.  What is missing for the full statement: the textbook identity "sum over all assignments of the
-   product of the factors = ancestral pass in a topological order" for this network shape; it is checked by
-   vm_compute on the example below and, on every run, by the harness (it multiplies out the REAL factors
-   exhaustively and compares with exact world enumeration and with ProbLog's own numbers). *)
+     exported network (one choice-node table per clause, one OrCPT per atom), marginalised by SUMMATION over
+     all assignments (ModelBN.bn_marginal), gives every event -- in particular every atom -- the probability of
+     ProbLog's possible-world semantics (mass (run stepW cs [])).
+   What is proved: (1) every table row is a distribution and the table has the documented shape, (2) the
+   per-clause theorem (choice-node CPT + OrCPTs realise the AD's world semantics given the parents), (3) its
+   lifting along ANY clause order (ancestral reading of the network = clause-by-clause world semantics;
+   C31_marginals_partial, kept), (4) the global sum-product step: summation over all assignments of the product
+   of all factors = ancestral pass (C31_marginals, first conjunct; proofs in ProofsGlobal.v), and (5) the joint
+   is normalised (C31_joint_normalised).
+   Hypotheses of (4)/(5):
+     * wf_netb atoms cs = true (ModelBNwf.v, a boolean the harness evaluates on every real exported network):
+       `atoms` (the enumerated OrCPT variables) has no duplicates; every head atom of every clause is in `atoms`;
+       the clause list is in topological order, i.e. for every suffix c :: t of cs no atom of the body of c is a
+       head of c or of a clause of t (the parents of every factor precede it; the network is acyclic).  An atom
+       may be the head of several clauses and of several heads of one clause; body atoms that are not in `atoms`
+       read false on both sides.
+     * ev_ext ev: the event reads an assignment only through lookupb (association lists with shadowing are a
+       representation detail), e.g. `lookupb a` for an atom a or any boolean combination of such.
+   The theorem holds for every clause order satisfying wf_netb; the harness checks wf_netb on a topological
+   permutation of formula.enum_clauses() (the sum over all assignments does not depend on the numbering of the
+   choice nodes, which is checked numerically there, not proved here). *)
 From Coq Require Import QArith NArith List Bool.
-From PL.C31 Require Import ModelBN ProofsBN.
+From PL.C31 Require Import ModelBN ModelBNwf ProofsBN ProofsGlobal.
 Import ListNotations.
 Open Scope Q_scope.
 
@@ -48,6 +60,23 @@ Theorem C31_marginals_partial : forall cs r ev, mass (run stepBN cs r) ev == mas
 Proof. exact marginals_eq. Qed.
 Print Assumptions C31_marginals_partial.
 
+(* the global step: for a well-formed (duplicate-free atoms, heads among atoms, topologically ordered clauses)
+   network, summation over ALL assignments of the product of ALL factors = ancestral pass = world semantics,
+   for every event that reads the assignment through lookupb *)
+Theorem C31_marginals : forall atoms cs ev,
+  wf_netb atoms cs = true ->
+  ev_ext ev ->
+  bn_marginal atoms cs ev == mass (run stepBN cs []) ev /\
+  mass (run stepBN cs []) ev == mass (run stepW cs []) ev.
+Proof. exact marginals_global. Qed.
+Print Assumptions C31_marginals.
+
+(* the product of all factors of a well-formed network sums to 1 over all assignments *)
+Theorem C31_joint_normalised : forall atoms cs,
+  wf_netb atoms cs = true -> bn_marginal atoms cs (fun _ => true) == 1.
+Proof. exact joint_normalised. Qed.
+Print Assumptions C31_joint_normalised.
+
 (* non-vacuity: 0.3::a. 0.5::b. 0.2::h1; 0.3::h2 :- a, \+b. 0.4::h1 :- b. d :- h1, \+h2.
    atoms a=1 b=2 h1=3 h2=4 d=5 *)
 Definition ex_prog : list clause :=
@@ -68,3 +97,11 @@ Example C31_ex_table :
   [([false; false], [1%Q; 0%Q; 0%Q]); ([false; true], [1%Q; 0%Q; 0%Q]);
    ([true; false], [(1#2)%Q; (1#5)%Q; (3#10)%Q]); ([true; true], [1%Q; 0%Q; 0%Q])].
 Proof. vm_compute. reflexivity. Qed.
+(* non-vacuity of the hypotheses of C31_marginals: the example network is well formed, atom events are
+   extensional; an ill-ordered clause list (a body atom defined later) is rejected *)
+Example C31_ex_wf : wf_netb [1%N; 2%N; 3%N; 4%N; 5%N] ex_prog = true.
+Proof. vm_compute. reflexivity. Qed.
+Example C31_ex_not_wf : wf_netb [1%N; 2%N; 3%N; 4%N; 5%N] (rev ex_prog) = false.
+Proof. vm_compute. reflexivity. Qed.
+Example C31_ex_ev_ext : forall a, ev_ext (lookupb a).
+Proof. intros a r1 r2 H. apply H. Qed.
